@@ -221,6 +221,72 @@ Definition observe (s : st) : result :=
 Definition cfg_fixed (r : Z) : cfg := mkcfg r true true.      (* the repaired code *)
 Definition cfg_current (r : Z) : cfg := mkcfg r false false.  (* the pinned tree *)
 
+(* ---------------------------------------------------------------- the same functions, carrying the remaining length
+   as the C code does (n -= k) instead of recomputing it; Properties_C11.C11_fast_run_is_run proves them equal.
+   Only the extracted driver uses these (linear instead of quadratic time on long strings). *)
+Fixpoint ex_loop_f (C : cfg) (fuel : nat) (s : st) (l : list Z) (n : Z) : option st :=
+  match fuel with
+  | O => None
+  | S f =>
+    let k := fsz s - p s in
+    if k <? 0 then Some (set_viol s)
+    else if k <? n then
+      let s2 := flushc C false (puts s (firstn (Z.to_nat k) l)) in
+      if fix_progress C && (fsz s2 - p s2 =? 0) && negb (err s2 =? 0) then Some s2
+      else ex_loop_f C f s2 (skipn (Z.to_nat k) l) (n - k)
+    else Some (puts s l)
+  end.
+
+Definition print_ex_f (C : cfg) (s : st) (l : list Z) (n : Z) : option st :=
+  ex_loop_f C (ex_fuel l) (check C s) l n.
+
+Definition print_f (C : cfg) (s : st) (l : list Z) : option st :=
+  let n := len l in if fsz s <=? p s + n then print_ex_f C s l n else Some (puts s l).
+
+Definition print_indent_f (C : cfg) (s : st) (n : Z) : option st :=
+  if fsz s <? p s + n then print_ex_f C s (spaces n) (Z.max 0 n) else Some (puts s (spaces n)).
+
+Fixpoint b64_loop_f (C : cfg) (fuel : nat) (s : st) (l : list Z) (n : Z) : option (st * bool) :=
+  match fuel with
+  | O => None
+  | S f =>
+    if fsz s <? p s + n then
+      let room := fsz s - p s in
+      if room <? 0 then Some (set_viol s, false)
+      else
+        let k := if fix_b64 C then ((room + 3) / 4) * 4 else (room / 4) * 4 in
+        if fix_b64 C && (n <=? k) then Some (puts s l, true)
+        else
+          let s2 := flushc C false (puts s (firstn (Z.to_nat k) l)) in
+          if fix_b64 C && (fsz s2 =? p s2) && negb (err s2 =? 0) then Some (s2, false)
+          else b64_loop_f C f s2 (skipn (Z.to_nat k) l) (n - k)
+    else Some (puts s l, true)
+  end.
+
+Definition print_b64_f (C : cfg) (s : st) (l : list Z) : option st :=
+  let n := len l in
+  let s1 := put s 34 in
+  let s2 := if fsz s1 <=? p s1 + n then flushc C false s1 else s1 in
+  match b64_loop_f C (b64_fuel l) s2 l n with
+  | None => None
+  | Some (s3, true) => Some (put s3 34)
+  | Some (s3, false) => Some s3
+  end.
+
+Definition step_f (C : cfg) (s : st) (x : prim) : option st :=
+  match x with
+  | PPrint l => print_f C s l
+  | PIndent n => print_indent_f C s n
+  | PB64 l => print_b64_f C s l
+  | _ => step C s x
+  end.
+
+Fixpoint run_f (C : cfg) (ops : list prim) (s : st) : option st :=
+  match ops with
+  | [] => Some s
+  | x :: t => match step_f C s x with None => None | Some s' => run_f C t s' end
+  end.
+
 (* ---------------------------------------------------------------- run-length accounting
    The side condition of the no-overrun theorem: starting with ctx->p at most [sl] bytes above pflush, every
    store of the stream stays within RSV bytes above pflush, where every primitive that tests
